@@ -27,6 +27,9 @@ CHECKS = {
  'C10': ('vt', 'bounded-exhaustive enumeration of arrival-time sequences (with max_batch_size mutation events) on the real batcher under a virtual-time event loop',
          'All arrival sequences of up to 5 (thorough 7) calls on a gap grid straddling batch_timeout, with one max_batch_size mutation at any position, x size/concurrency/duration configs; the batch log of the harness batch function is checked for size limit, concurrency limit, FIFO, sharing-until-full and dispatch deadline (exact in virtual time, ties not judged).',
          'virtual clock; distinct keys; ties between arrivals and timers abstain on timing clauses only.', '3/C10'),
+ 'C12': ('sq', 'explicit-state BFS to a fixpoint over operation sequences on the real FileLock against a reference model, with exhaustive single/double OSError injection per transition',
+         'BFS to a fixpoint (about 4.4k canonical states, 157k transitions) over 2 FileLock objects x 2 virtual threads on one path for 6 configurations, 52-operation alphabet (all acquire forms, acquire_ctx/with enter+exit, release, forced release, nesting <= 3); after every step return value, is_locked, nesting counter, in-process lock state, descriptor accounting (+/proc/self/fd) and the real kernel flock state are compared with a reference model; every env-call-making transition from context-free states is re-run with OSError injected at each env-call index (and pairs), followed by all non-blocking probes.',
+         'virtual threads in one real thread (in-process lock ownership is virtual); ops that would block forever and cross-thread release are outside the alphabet; longer random sequences (sampling) are not claimed.', '3/C12'),
  'C14': ('vt', 'bounded-exhaustive enumeration of call signatures and cache-operation sequences on the real decorator under a virtual-time event loop',
          'Every call signature (<= 2, thorough 3 positionals over a 9-value domain incl. equal-across-type and (name,value) tuples; keyword dicts over <= 3 names in every insertion order) called on one wrapped function forward / reverse / shuffled / concurrently (covers all ordered pairs) for default, dict and logging-mapping caches; every sequence of <= 4 (thorough 5) ops over {call, evict, clear} x 4 colliding signatures, and every call sequence on lru.LRU(1..3): invoked iff absent from the caller mapping, values tagged with the arguments that produced them.',
          'single loop (cross-thread behaviour is C01); reference key relation is Python ==/hash.', '3/C14'),
